@@ -170,6 +170,12 @@ def chunker_facts(tb, env):
                             out["why"] = (f"offsets run over range({start}, {U(stop)}, {step}) instead of range(0, len({x}), {step}): "
                                           "the tail of the stream is not emitted for some lengths")
                         return out
+    neg = _negative_zero_slice(tb)
+    if neg is not None:
+        call, e_txt = neg
+        out.update(node=call, shape="unrecognised", why=f"`{U(call)}`: `[-{e_txt}:]` is the whole stream when {e_txt} == 0 (a length that is an exact multiple of the chunk "
+                   "size): the complete stream is appended again as one oversized chunk")
+        return out
     site = _unbounded_compress_site(tb, env)
     if site is not None:
         call, var = site
@@ -177,6 +183,26 @@ def chunker_facts(tb, env):
                    f"that drains `{var}` below the limit): a chunk can carry more than 64 KiB")
         return out
     raise AnalysisError("IWACompressedChunk.to_buffer: chunking of the stream not recognised")
+
+
+def _negative_zero_slice(tb):
+    """A ``compress(x[-E:])`` whose count E is not known to be positive where the call runs."""
+    for call in [n for n in body_walk(tb) if isinstance(n, ast.Call) and last_attr(n.func) == "compress" and n.args]:
+        a = call.args[0]
+        if isinstance(a, ast.Subscript) and isinstance(a.slice, ast.Slice) and a.slice.upper is None and isinstance(a.slice.lower, ast.UnaryOp) \
+                and isinstance(a.slice.lower.op, ast.USub) and not isinstance(a.slice.lower.operand, ast.Constant):
+            e_txt = U(a.slice.lower.operand)
+            guarded = False
+            p = call
+            while getattr(p, "_parent", None) is not None and p is not tb:
+                prev, p = p, p._parent
+                if isinstance(p, ast.If) and any(prev is x for x in p.body):
+                    t = U(p.test).replace(" ", "")
+                    if t in (e_txt, f"{e_txt}>0", f"{e_txt}!=0", f"{e_txt}>=1", f"0<{e_txt}"):
+                        guarded = True
+            if not guarded:
+                return call, e_txt
+    return None
 
 
 def _unbounded_compress_site(tb, env):
@@ -378,6 +404,35 @@ def run(repo, rep, tier):
     ok = ok and bool(ret) and isinstance(ret[0].value.ops[0], ast.Eq)
     rep.ob("C05.R1", sn["func"], "is_iwa_file: total of (4 + length) over frames equals the data length", ok, "", key="C05.R1@is_iwa_file:total")
 
+    # each chunk is decoded on its own: nothing but the remaining stream is carried from one chunk to the next
+    da = repo.func("iwafile.py", "IWACompressedChunk._decompress_all")
+    wl = [n for n in body_walk(da) if isinstance(n, ast.While)]
+    if len(wl) != 1:
+        raise AnalysisError("_decompress_all: the chunk loop not found")
+    lp = wl[0]
+    stream = U(lp.test) if isinstance(lp.test, ast.Name) else None
+    assigned = {}
+    for n in ast.walk(lp):
+        if isinstance(n, ast.Name) and isinstance(n.ctx, ast.Store):
+            pos = (n.lineno, n.col_offset)
+            assigned[n.id] = min(assigned.get(n.id, pos), pos)
+    carried = []
+    for n in ast.walk(lp):
+        if isinstance(n, ast.Name) and isinstance(n.ctx, ast.Load) and n.id in assigned and n.id != stream:
+            # read at a position before its first assignment in the body: the value comes from an earlier iteration
+            if (n.lineno, n.col_offset) < assigned[n.id] and n.lineno > lp.lineno:
+                carried.append(n.id)
+        if isinstance(n, ast.Name) and isinstance(n.ctx, ast.Load) and n.id in assigned and n.id != stream and n.lineno == lp.lineno:
+            carried.append(n.id)
+    for n in ast.walk(lp):
+        if isinstance(n, (ast.Assign, ast.AugAssign)):
+            for t in (n.targets if isinstance(n, ast.Assign) else [n.target]):
+                if isinstance(t, ast.Attribute) and isinstance(t.value, ast.Name) and t.value.id in ("cls", "self"):
+                    carried.append(U(t))
+    rep.ob("C05.R1", lp, f"_decompress_all: only the remaining stream `{stream}` is carried from one chunk to the next", not carried and stream is not None,
+           "" if not carried else f"{sorted(set(carried))} keep a value from an earlier chunk: how a chunk is decoded depends on the chunks before it (a stored chunk "
+           "followed by a compressed one is passed through raw)", key="C05.R1@_decompress_all:independent")
+
     # ---------------- R2 chunker
     ch = chunker_facts(tb, env)
     ok = ch["emit"] is not None and ch["emit"] == ch["advance"] and ch["covers"]
@@ -578,6 +633,24 @@ VARIANTS = [
     M("objects-reversed", "iwafile.py",
       "        return b\"\".join(\n            [_VarintBytes(self.header.ByteSize()), self.header.SerializeToString()]\n            + [obj.SerializeToString() for obj in self.objects],\n        )",
       "        return b\"\".join(\n            [_VarintBytes(self.header.ByteSize()), self.header.SerializeToString()]\n            + [obj.SerializeToString() for obj in reversed(self.objects)],\n        )", "C05.R3"),
+    M("chunker-divmod-negative-zero", "iwafile.py", """        payloads = []
+        while uncompressed:
+            payloads.append(snappy.compress(uncompressed[:65536]))
+            uncompressed = uncompressed[65536:]
+""", """        num_full, remainder = divmod(len(uncompressed), 65536)
+        payloads = [snappy.compress(uncompressed[i * 65536 : (i + 1) * 65536]) for i in range(num_full)]
+        if uncompressed:
+            payloads.append(snappy.compress(uncompressed[-remainder:]))
+""", "C05.R2"),
+    M("decoder-sticky-stored-flag", "iwafile.py", """            try:
+                yield snappy.uncompress(chunk)
+            except Exception:  # pragma: no cover""", """            if cls._raw:
+                yield chunk
+                continue
+            try:
+                yield snappy.uncompress(chunk)
+            except Exception:  # pragma: no cover
+                cls._raw = True""", "C05.R1"),
     M("patch-base-first-payload", "iwafile.py", "ID_NAME_MAP[base_message.type],", "type(payloads[0]),", "C05.R4"),
     M("patch-base-index-zero", "iwafile.py", "archive_info.message_infos[message_info.base_message_index]", "archive_info.message_infos[0]", "C05.R4"),
     M("chunker-accumulate-if", "iwafile.py", """        uncompressed = b"".join([archive.to_buffer() for archive in self.archives])
